@@ -26,8 +26,8 @@ pub enum CrcValue {
 
 impl CrcValue {
     pub fn has_crc(&self) -> bool {
-        // TODO: handle unknown
-        *self != CrcValue::CrcNo
+        // an unknown CRC type carries no CRC field: the decoder reads none for it
+        !matches!(self, CrcValue::CrcNo | CrcValue::Unknown(_))
     }
     pub fn to_code(&self) -> CrcRawType {
         match self {
@@ -143,9 +143,8 @@ pub fn calculate_crc<T: CrcBlock + Block>(blck: &mut T) -> CrcValue {
             blck.set_crc(crc_bak); // restore orginal crc
             CrcValue::Crc32(output_crc)
         }
-        _ => {
-            panic!("Unknown crc type");
-        }
+        // nothing can be calculated for an unknown CRC type: keep what the block carries
+        _ => blck.crc_value().clone(),
     }
 }
 pub fn check_crc<T: CrcBlock + Block>(blck: &mut T) -> bool {
